@@ -16,8 +16,14 @@
 #define protected public
 #include "util/double-conversion/double-conversion.h"
 #include "util/float_to_string.cc"
+#include "util/file_stream.hh"
 #undef private
 #undef protected
+
+// linked with -Wl,--wrap=malloc: the size FileStream's constructor asks malloc for
+extern "C" void *__real_malloc(size_t);
+static size_t g_last_malloc = 0;
+extern "C" void *__wrap_malloc(size_t n) { g_last_malloc = n; return __real_malloc(n); }
 
 static void def(const char *name, long v) {
   if (v < 0) printf("Definition %s : Z := (%ld)%%Z.\n", name, v);
@@ -58,5 +64,13 @@ int main() {
   def("c19_kbytes_bool", util::ToStringBuf<bool>::kBytes);
   def("c19_ktostring_max_bytes", util::kToStringMaxBytes);
   def("c19_sizeof_ptr", sizeof(void*));
+  // FileStream(fd, buffer_size): bytes allocated and end_ - current_, observed (used to validate the translation of the
+  // constructor's two expressions into Gen/FileStreamC19.v)
+  static const size_t sizes[] = {0, 1, 2, 3, 5, 8, 13, 19, 20, 21, 22, 23, 24, 25, 26, 27, 28, 31, 32, 33, 50, 64, 100, 4096, 8192, 1000000};
+  for (size_t i = 0; i < sizeof(sizes) / sizeof(sizes[0]); ++i) {
+    g_last_malloc = 0;
+    util::FileStream s(-1, sizes[i]);
+    printf("(* FS %zu %zu %ld *)\n", sizes[i], g_last_malloc, (long)(s.end_ - s.current_));
+  }
   return 0;
 }
